@@ -339,6 +339,16 @@ class BuiltinMixin:
       raise Unsupported('np.zeros of symbolic length')
     return VVec([VInt(0) for _ in range(n.as_long())])
 
+  def lib_math_isclose(self, it, a, k):
+    """math.isclose(a, b, rel_tol=1e-09, abs_tol=0.0): |a-b| <= max(rel_tol * max(|a|, |b|), abs_tol); False with a NaN."""
+    x, y = self.to_real(a[0]), self.to_real(a[1])
+    rel = self.to_real(k['rel_tol']).t if 'rel_tol' in k else z3.RealVal('1/1000000000')
+    ab = self.to_real(k['abs_tol']).t if 'abs_tol' in k else z3.RealVal(0)
+    absf = lambda t: z3.If(t >= 0, t, -t)
+    mx = z3.If(absf(x.t) >= absf(y.t), absf(x.t), absf(y.t))
+    tol = z3.If(rel * mx >= ab, rel * mx, ab)
+    return VBool(z3.And(z3.Not(x.nan), z3.Not(y.nan), absf(x.t - y.t) <= tol))
+
   def lib_time_time(self, it, a, k):
     """Wall clock: a non-decreasing ghost (A5)."""
     prev = self.ghost.get('__clock__')
